@@ -223,8 +223,9 @@ class Audit:
                     back.add(c)
                     work.append(c)
         pathset = fwd & back
+        never = getattr(self, 'never_inline', None)
         eng = RangeEngine(self.p, inline_depth=7, max_paths=1500,
-                          inline_filter=lambda callee: callee in pathset or self._small(callee))
+                          inline_filter=lambda callee: not (never and never.search(callee)) and (callee in pathset or self._small(callee)))
         eng._tbb = self.eng._tbb
         eng.range_hints = self.eng.range_hints
         eng.invariants = self.eng.invariants
